@@ -59,4 +59,10 @@ TEXT = {
     level_text="Generated listings x iterator batchings x read-size sequences x msize; the oracle is byte equality of the concatenated replies with independently encoded entries plus whole-entry boundaries.",
     level_note="Trusted: refwire.EncodeStat, mockfs listing order, the msize-forcing connection wrapper.",
  ),
+ "C14": dict(
+    technique="property-based concurrency testing: rapid-generated concurrent histories with a harness-owned schedule (gates at every file-system call), overlap monitors in the mock, deadlock watchdog, Go race detector",
+    design_ref="DESIGN.md section 4, C14",
+    level_text="Generated concurrent histories x generated release orders of parked file-system calls; violations are observed (overlapping calls, goroutines that never return, fids left locked, race reports), never inferred.",
+    level_note="Trusted: mockfs in-call counters, the settle heuristic of the gate controller (affects which interleavings are explored, never the verdict), the race detector.",
+ ),
 }
